@@ -107,6 +107,13 @@ class ServerSock:
             w.note_fault(c, op, n, f)
             if isinstance(f, int):
                 raise OSError(f, errno.errorcode.get(f, "fault"))
+            if f == "RST":
+                # the client resets the connection just before this call
+                if not c.client_rst:
+                    c.client_reset()
+            elif f == "CLOSE":
+                if not c.client_closed:
+                    c.client_close()
         return f
 
     def fileno(self):
